@@ -135,6 +135,36 @@ def common_models():
         v.items.extend(it.items[it.pos:])
         return ms.Opaque("()")
 
+    def m_is_empty(ex, path, a):
+        c = ex.load(path, a[0])
+        return len(c.entries if isinstance(c, ms.MapV) else c.items) == 0
+
+    def m_len(ex, path, a):
+        c = ex.load(path, a[0])
+        return len(c.entries if isinstance(c, ms.MapV) else c.items)
+
+    def m_entry(ex, path, a):
+        return ms.Struct({0: a[0], 1: a[1]}, "Entry")
+
+    def m_or_insert(ex, path, a):
+        ent = a[0]
+        if not isinstance(ent, ms.Struct) or ent.tag != "Entry":
+            raise Unsupported("or_insert on %r" % (ent,))
+        mp = ex.load(path, ent.f[0])
+        key = sval(ent.f[1])
+        alts = []
+        for i, e in enumerate(mp.entries):
+            def eff(q, args, i=i):
+                r = args[0].f[0]
+                return ex.load(q, r).entries[i][1]
+            alts.append((sval(e[0]) == key, eff))
+
+        def fresh(q, args):
+            ex.load(q, args[0].f[0]).entries.append([args[0].f[1], args[1]])
+            return args[1]
+        alts.append((z3.And(*[sval(e[0]) != key for e in mp.entries]) if mp.entries else True, fresh))
+        return ms.Fork(alts)
+
     def m_contains_key(ex, path, a):
         mp = ex.load(path, a[0])
         k = sval(ex.load(path, a[1]))
@@ -153,7 +183,7 @@ def common_models():
 
         def missing(q, args):
             events(q).append(("panic", "index of a missing key"))
-            return ms.Opaque("never")
+            return boxed(ms.Struct({0: z3.IntVal(-1), 1: -1}, "iface"))   # the real code panics here; recorded above
         alts.append((z3.And(*[sval(e[0]) != k for e in mp.entries]) if mp.entries else True, missing))
         return ms.Fork(alts)
 
@@ -179,7 +209,8 @@ def common_models():
         (r"^Vec::<Cow<'_, str>>::push$", m_vec_push), (r"^Vec::<Cow<'_, str>>::new$", m_vec_new),
         (r"^<Cow<'_, str> as Clone>::clone$", m_clone),
         (r"^HashMap::<.*>::keys$", m_keys), (r"as Iterator>::cloned::<.*>$", m_identity), (r"as Extend<.*>>::extend::<.*>$", m_extend),
-        (r"^HashMap::<.*>::contains_key::<str>$", m_contains_key), (r"as std::ops::Index<&str>>::index$", m_index),
+        (r"^HashMap::<.*>::contains_key::<str>$", m_contains_key), (r"^HashMap::<.*>::is_empty$", m_is_empty),
+        (r"^HashMap::<.*>::len$", m_len), (r"^HashMap::<.*>::entry$", m_entry), (r"Entry::<.*>::or_insert$", m_or_insert), (r"as std::ops::Index<&str>>::index$", m_index),
         (r"^<str as PartialEq>::eq$", m_str_eq), (r"^<dyn Interface \+ Send \+ Sync as Interface>::call$", m_dispatch),
         (r"^<VarlinkService as Interface>::call$", m_builtin), (r"^Call::<'_>::reply_interface_not_found$", m_inf),
     ]
